@@ -1666,7 +1666,14 @@ class State:
                     try:
                         cv = self.refine(self.expr(c, env))
                     except NeedSplit as ns:
-                        cv = ('unknown', 'cond')
+                        # keep the (first undecided part of the) condition as the loop's marker
+                        cn, negs = c, 0
+                        while cn.get('k') == 'Unary' and cn.get('op') == 'Not':
+                            cn, negs = cn['a'], negs + 1
+                        at = ns.key[1] if isinstance(ns.key, tuple) and ns.key and ns.key[0] == 'atom' else None
+                        if at is not None and negs % 2 == 1:
+                            at = ('un', 'Not', at)
+                        cv = ('call', 'cond', (at,)) if at is not None else ('unknown', 'cond')
                     if cv[0] == 'lit' and isinstance(cv[1], bool):
                         if not cv[1]:
                             return UNIT
